@@ -16,10 +16,11 @@ Inductive ekind :=
 | EValue (expected : value)
 | EMin (m : value) | EMax (m : value)
 | ELen (n : intv) | EMinLen (n : intv) | EMaxLen (n : intv)
-| EAlphabet (a : pystr) | ESubstr (s : pystr) | ERegex (p : pystr)
+| EAlphabet (a : pystr) | ESubstr (s : pystr)
+| ERegex (pt : pystr * list re)          (* pattern text and its parse tree *)
 | EMissingElement (i : Z) | EExtraElement (i : Z)
 | EMissingKey (k : key) | EExtraKey (k : key)
-| EMismatch
+| EMismatch (ts : list schema)            (* the alternatives, none of which matched *)
 | EUuidVersion (actual : option N).
 
 Record verror := VE { ekind_of : ekind; epath : path; eactual : value }.
@@ -93,7 +94,7 @@ Definition v_str (val : option pystr) (len mnl mxl : option intv) (alpha sub : o
       | (_ :: _) as errs => errs
       | [] =>
           match (match pat with
-                 | Some pt => if pat_search pt s then [] else [VE (ERegex (fst pt)) p v]
+                 | Some pt => if pat_search pt s then [] else [VE (ERegex pt) p v]
                  | None => [] end) with
           | (_ :: _) as errs => errs
           | [] =>
@@ -204,9 +205,9 @@ Definition dict_logic (m : mode) (fs : list (key * (option elemfn * bool))) (p :
            (d : list (key * value)) : list verror :=
   dict_members m fs p d ++ dict_extras fs p d.
 
-Definition any_logic (fs : list elemfn) (p : path) (v : value) : list verror :=
+Definition any_logic (ts : list schema) (fs : list elemfn) (p : path) (v : value) : list verror :=
   if existsb (fun f => match f p v with [] => true | _ => false end) fs then []
-  else [VE EMismatch p v].
+  else [VE (EMismatch ts) p v].
 
 Fixpoint validate (m : mode) (s : schema) (p : path) (v : value) {struct s} : list verror :=
   match s with
@@ -252,7 +253,7 @@ Fixpoint validate (m : mode) (s : schema) (p : path) (v : value) {struct s} : li
   | SAny ts =>
       match ts with
       | None => []
-      | Some ts' => any_logic (map (fun t => validate m t) ts') p v
+      | Some ts' => any_logic ts' (map (fun t => validate m t) ts') p v
       end
   | SBytes val => v_bytes val p v
   | SUuid val => v_uuid val p v
@@ -355,7 +356,7 @@ Definition vr_str (val : option pystr) (len mnl mxl : option intv) (alpha sub : 
                | Some pt =>
                    do s <- r_as_str v;             (* re.search(pattern, value): TypeError *)
                    match searchb (snd pt) s with
-                   | Some b => Ok (if b then [] else [VE (ERegex (fst pt)) p v])
+                   | Some b => Ok (if b then [] else [VE (ERegex pt) p v])
                    | None => Raise OtherExn         (* pattern outside the modelled fragment *)
                    end
                end;
@@ -449,12 +450,13 @@ Definition dict_membersR (m : mode) (fs : list (key * (option elemfnR * bool))) 
               | Subst => Ok [] end
           end) fs)).
 
-Fixpoint any_logicR (fs : list elemfnR) (p : path) (v : value) : result (list verror) :=
+Fixpoint any_logicR (ts : list schema) (fs : list elemfnR) (p : path) (v : value)
+  : result (list verror) :=
   match fs with
-  | [] => Ok [VE EMismatch p v]
+  | [] => Ok [VE (EMismatch ts) p v]
   | f :: r =>
       do es <- f p v;
-      match es with [] => Ok [] | _ => any_logicR r p v end
+      match es with [] => Ok [] | _ => any_logicR ts r p v end
   end.
 
 Fixpoint validateR (m : mode) (s : schema) (p : path) (v : value) {struct s}
@@ -500,7 +502,7 @@ Fixpoint validateR (m : mode) (s : schema) (p : path) (v : value) {struct s}
   | SAny ts =>
       match ts with
       | None => Ok []
-      | Some ts' => any_logicR (map (fun t => validateR m t) ts') p v
+      | Some ts' => any_logicR ts' (map (fun t => validateR m t) ts') p v
       end
   | SBytes val => Ok (v_bytes val p v)
   | SUuid val => vr_uuid val p v
